@@ -349,10 +349,13 @@ class C09(Prop):
     model_targets = ['Launch/Oracle.vo']
     translators = []
     header = 'From RP Require Import Launch.Model Launch.Oracle.'
-    clauses = ['count', 'nodes', 'pins', 'stateless', 'refuses', 'no_crash']
+    clauses = ['count', 'nodes', 'pins', 'stateless', 'refuses', 'no_crash', 'bulk_launcher_is_own',
+               'bulk_cmd_matches_placement']
     corr_name = ('Launch.Model(can_launch/get_launch_cmds per method) vs LaunchMethod.create + init_from_scratch/'
                  'init_from_info + ResourceManager.find_launcher + AgentExecutingComponent._get_launch')
-    rule = ('corpus, then launcher-selection cases (real find_launcher over launch orders, FORK mostly first, '
+    rule = ('corpus, then bulks of 1-5 tasks through the real Popen.work (refused / local / remote single-rank / '
+            'multi-rank tasks over launch orders of 2-3 launch methods; non-trivial = launched by >= 2 different '
+            'methods, or a refused task beside >= 2 launched ones), launcher-selection cases (real find_launcher over launch orders, FORK mostly first, '
             'placements on the agent node / localhost / a node with a prefix-related name / another node), and '
             'per launch method and flavour random histories of 1-4 tasks on one launcher object; '
             'placements of 1..60 ranks over 1..50 nodes (block, scattered, single-node; arbitrary core index sets; '
@@ -371,6 +374,10 @@ class C09(Prop):
         'init_from_scratch (ru.which, ru.sh_callout, ru.get_hostname, _get_mpi_info, _check_available_lm_options, '
         'PRTE._configure mocked as in tests/unit_tests/test_lm) / init_from_info / find_launcher / _get_launch; '
         'LaunchMethod.__init__ (registry access) replaced',
+        'bulk driver harness/c09.py:_executor/_run_bulk: real Popen (initialize, work, _handle_task, script creation, '
+        '_launch_task) over the real ResourceManager.find_launcher and real launch methods; subprocess.Popen, the '
+        'watcher/timeout threads, ResourceManager.create and ru.which mocked; launch command read back from the '
+        'launch script on disk',
         'modelled as used, not verified: ru.create_hostfile, ru.sh_quote, ru.as_list, Python set iteration order '
         '(srun node lists are compared sorted)',
         'not modelled: IBRUN node mapping (depends on TACC ibrun wrapper; process count only), DRAGON and FLUX '
@@ -583,6 +590,41 @@ class C09(Prop):
                     tasks.append(dict(slots=slots, ranks=nr, cpr=1, mpi=rng.random() < 0.7,
                                       wfail=rng.random() < 0.1))
             yield {'order': order, 'o': o, 'fam': fam, 'tasks': tasks}
+        # bulks through the real Popen.work: tasks no method accepts, local / remote single-rank tasks,
+        # multi-rank tasks, over launch orders of several real launch methods
+        borders = [['FORK', 'SSH', 'MPIRUN'], ['FORK', 'RSH', 'MPIEXEC'], ['FORK', 'SSH', 'SRUN'],
+                   ['FORK', 'SSH', 'PRTE'], ['FORK', 'SSH'], ['SSH', 'MPIRUN_MPT'], ['FORK', 'MPIRUN'],
+                   ['FORK', 'SSH', 'MPIRUN_RSH'], ['RSH', 'FORK', 'MPIEXEC_MPT']]
+        for k in range(200 if tier == 'quick' else 3000):
+            order = borders[k % len(borders)]
+            fam = FAMS[(k // len(borders)) % len(FAMS)]
+            set_fam(fam)
+            local = rng.randint(1, 50)
+            o = {'local': local}
+            if any(NAMES[x] == 'MPIEXEC' for x in order):
+                o['flavor'] = rng.choice(['OMPI', 'HYDRA', 'UNKNOWN'])
+                o['rf'] = rng.random() < 0.4
+                o['hf'] = rng.random() < 0.4
+            tasks = []
+            for _ in range(rng.randint(1, 5)):
+                r2 = rng.random()
+                if r2 < 0.25:        # refused by every method: no executable (or MPI where only FORK/SSH exist)
+                    node = rng.choice([local, rng.randint(1, 60)])
+                    tasks.append(dict(slots=[[node, node, [0], []]], ranks=1, cpr=1, mpi=rng.random() < 0.3,
+                                      exe=False))
+                elif r2 < 0.5:       # single rank on the agent's node
+                    node = rng.choice([local, local, 0])
+                    tasks.append(dict(slots=[[node, node, [rng.randint(0, 63)], []]], ranks=1, cpr=1, mpi=False))
+                elif r2 < 0.75:      # single rank on another node
+                    node = rng.choice([partner(local), rng.randint(1, 60)])
+                    tasks.append(dict(slots=[[node, node, [rng.randint(0, 63)], []]], ranks=1, cpr=1,
+                                      mpi=rng.random() < 0.1))
+                else:                # multi-rank
+                    nr = rng.randint(2, 6) if rng.random() < 0.9 else rng.randint(43, 50)
+                    pool_ = [local, partner(local), rng.randint(1, 60), rng.randint(1, 60)]
+                    slots = [[n_, n_, [i], []] for i, n_ in enumerate(rng.choice(pool_) for _ in range(nr))]
+                    tasks.append(dict(slots=slots, ranks=nr, cpr=1, mpi=rng.random() < 0.8))
+            yield {'bulk': True, 'order': order, 'o': o, 'fam': fam, 'tasks': tasks}
         if tier == 'thorough':
             # small-scope exhaustive: all assignments of <= 4 ranks to 2 nodes for the node-naming methods
             import itertools
@@ -745,9 +787,143 @@ class C09(Prop):
         _, out = self._launch(dict(case, name=lname), launcher, None, task, sbox)
         return {'sel': order.index(lname), 'out': out}
 
+    # ---- bulks through the real Popen.work -------------------------------------------------------
+    def _executor(self, case, root):
+        """A real Popen executor (real initialize, real _handle_task / script creation / _launch_task) with
+        the real ResourceManager.find_launcher over real launch methods; only the process spawn is mocked."""
+        ru = self.ru
+        from radical.pilot.agent.executing.popen import Popen
+        import radical.pilot.agent.executing.popen as mpopen
+        import radical.pilot.agent.executing.base as mbase
+        import radical.pilot.agent as rpa
+        import threading
+        _, rm = self._make(case)
+        ps = os.path.join(root, 'rs', 'session.verif', 'pilot.0000')
+        os.makedirs(ps, exist_ok=True)
+        with mock.patch.object(Popen, '__init__', return_value=None):
+            c = Popen()
+        c._log, c._prof = mock.MagicMock(), mock.MagicMock()
+        c._prof.enabled = False
+        c._uid = 'agent_executing.0000'
+        c._term = threading.Event()
+        c._cancel_list = list()
+        c._cancel_lock = threading.RLock()
+        c._reg = {'bridges.control_pubsub': {'addr_pub': 'tcp://127.0.0.1:1', 'addr_sub': 'tcp://127.0.0.1:2'}}
+        session = mock.MagicMock()
+        session.uid = 'session.verif'
+        session.cfg = ru.Config(from_dict={'pid': 'pilot.0000', 'resource': 'local.localhost',
+                                           'resource_sandbox': os.path.join(root, 'rs'),
+                                           'session_sandbox': os.path.join(root, 'rs', 'session.verif'),
+                                           'pilot_sandbox': ps})
+        session.rcfg = ru.Config(from_dict={'resource_manager': 'FORK', 'new_session_per_task': True,
+                                            'task_tmp': os.path.join(root, 'tmp')})
+        session.reg_addr = 'tcp://127.0.0.1:3'
+        c._session = session
+        for lm in rm._launchers.values():
+            lm._pwd = ps
+        c.register_input = mock.MagicMock()
+        c.register_output = mock.MagicMock()
+        c.register_publisher = mock.MagicMock()
+        rec = {'failed': [], 'unsched': [], 'spawned': []}
+
+        def advance(things, state=None, publish=True, push=False, **kw):
+            for t in (things if isinstance(things, list) else [things]):
+                if state == 'FAILED':
+                    rec['failed'].append(t['uid'])
+                if state:
+                    t['state'] = state
+
+        def publish(pubsub, msg, topic=None):
+            import radical.pilot.constants as rpc
+            if pubsub == rpc.AGENT_UNSCHEDULE_PUBSUB:
+                for t in (msg if isinstance(msg, list) else [msg]):
+                    rec['unsched'].append(t['uid'])
+        c.advance, c.publish = advance, publish
+
+        class Proc:
+            pid = 4242
+
+            def poll(self):
+                return None
+
+            def wait(self, timeout=None):
+                return 0
+
+        import subprocess as real_sp
+
+        class FakeSP:
+            STDOUT, PIPE = real_sp.STDOUT, real_sp.PIPE
+            TimeoutExpired, SubprocessError = real_sp.TimeoutExpired, real_sp.SubprocessError
+
+            @staticmethod
+            def Popen(args=None, **kw):
+                rec['spawned'].append(str(args))
+                return Proc()
+        old_tmp = os.environ.get('TMPDIR')
+        os.environ['TMPDIR'] = os.path.join(root, 'tmp')
+        try:
+            with mock.patch.object(rpa.ResourceManager, 'create', return_value=rm), \
+                 mock.patch.object(mbase.mt, 'Thread', mock.MagicMock()), \
+                 mock.patch('radical.utils.which', lambda *a, **k: '/bin/true'):
+                c.initialize()
+        finally:
+            if old_tmp is None:
+                os.environ.pop('TMPDIR', None)
+            else:
+                os.environ['TMPDIR'] = old_tmp
+        return c, rm, rec, mock.patch.object(mpopen, 'sp', FakeSP), ps
+
+    def _run_bulk(self, case):
+        root = os.path.join(os.getcwd(), 'bulk_%d' % self.ncase)
+        shutil.rmtree(root, ignore_errors=True)
+        os.makedirs(root)
+        try:
+            c, rm, rec, sp_patch, ps = self._executor(case, root)
+            order = case['order']
+            tasks = []
+            for k, t in enumerate(case['tasks']):
+                uid = 'task.%06d' % k
+                task = self._taskdict(dict(case, name=order[0]), dict(t, wfail=False), uid, '%s/%s' % (ps, uid))
+                task.update({'origin': 'client', 'state': 'AGENT_EXECUTING_PENDING', 'type': 'task'})
+                del task['stdout_file_short'], task['stderr_file_short']
+                d = task['description']
+                d.update({'pre_exec': [], 'post_exec': [], 'pre_launch': [], 'post_launch': [], 'named_env': None,
+                          'stdout': None, 'stderr': None, 'timeout': 0.0, 'startup_timeout': 0.0, 'name': None,
+                          'pre_exec_sync': False, 'raptor_id': None, 'sandbox': None, 'tags': {},
+                          'lfs_per_rank': 0, 'mode': 'task.executable', 'services': []})
+                tasks.append(task)
+            with sp_patch:
+                c.work(list(tasks))
+            out = []
+            for task in tasks:
+                uid = task['uid']
+                if uid in rec['failed']:
+                    if any(uid in x for x in rec['spawned']):
+                        raise ValueError('%s was spawned and failed' % uid)
+                    out.append({'failed': True})
+                    continue
+                lname = task.get('launcher_name')
+                if lname not in order or not any(uid in x for x in rec['spawned']):
+                    raise ValueError('%s neither failed nor launched (launcher %r)' % (uid, lname))
+                txt = open('%s/%s.launch.sh' % (task['task_sandbox_path'], uid)).read()
+                m = re.search(r'\n\( \\\n((?:  .* \\\n)*)\) 1> (\S+) \\\n  2> (\S+)\nRP_RET=\$\?\n', txt)
+                if not m:
+                    raise ValueError('launch script of %s not understood' % uid)
+                cmds = [l[2:-2] for l in m.group(1).split('\n') if l]
+                if len(cmds) != 1:
+                    raise ValueError('%d launch commands' % len(cmds))
+                cmd = cmds[0].replace('$RP_TASK_SANDBOX/%s.exec.sh' % uid, 'EXEC')
+                argv, f = parse_cmd(NAMES[lname], cmd, task['task_sandbox_path'], uid)
+                out.append({'failed': False, 'sel': order.index(lname), 'out': {'argv': argv, 'file': f}})
+            return {'calls': out}
+        finally:
+            shutil.rmtree(root, ignore_errors=True)
+
     def run_impl(self, case):
         self.ncase += 1
         set_fam(case.get('fam'))
+        if case.get('bulk'):
+            return self._run_bulk(case)
         if case.get('order'):
             sbox = os.path.join(os.getcwd(), 'sbox_%d' % self.ncase)
             shutil.rmtree(sbox, ignore_errors=True)
@@ -787,6 +963,13 @@ class C09(Prop):
         return L.lst([cfg_lit(dict(case, name=nm)) for nm in case['order']])
 
     def coq_row(self, case, obs):
+        if case.get('bulk'):
+            o = L.lst(['HFailed' if c['failed'] else
+                       '(HLaunched %s (Build_command %s %s))' % (L.nat(c['sel']),
+                                                                 L.lst([arg_lit(a) for a in c['out']['argv']]),
+                                                                 file_lit(c['out']['file']))
+                       for c in obs['calls']])
+            return '(c09_bulk_row %s %s %s)' % (self._cfgs(case), L.lst([task_lit(t) for t in case['tasks']]), o)
         if case.get('order'):
             o = L.lst(['(%s, %s)' % (
                 '(inl %s)' % c['sel']['err'] if isinstance(c['sel'], dict) else
@@ -798,11 +981,17 @@ class C09(Prop):
         return '(c09_row %s %s %s)' % (cfg_lit(case), L.lst([task_lit(t) for t in case['tasks']]), o)
 
     def model_show(self, case):
+        if case.get('bulk'):
+            return 'work %s %s' % (self._cfgs(case), L.lst([task_lit(t) for t in case['tasks']]))
         if case.get('order'):
             return 'map (select_obs %s) %s' % (self._cfgs(case), L.lst([task_lit(t) for t in case['tasks']]))
         return 'run %s [] %s' % (cfg_lit(case), L.lst([task_lit(t) for t in case['tasks']]))
 
     def nontrivial(self, case, obs):
+        if case.get('bulk'):
+            # a bulk with a refused task and at least two launched ones, or launched by different methods
+            sel = [c['sel'] for c in obs['calls'] if not c['failed']]
+            return len(set(sel)) >= 2 or (len(sel) >= 2 and len(sel) < len(obs['calls']))
         if case.get('order'):
             # a selection that had to pass over at least one launcher, or found none
             return any(c['sel'] is None or isinstance(c['sel'], dict) or c['sel'] > 0 for c in obs['calls'])
@@ -839,6 +1028,8 @@ class C09(Prop):
         return lm
 
     def signature(self, case, obs, clause):
+        if case.get('bulk'):
+            return '%s:Popen.work' % clause
         if case.get('order'):
             return '%s:find_launcher' % clause
         return '%s:%s' % (clause, self._cond(case, clause))
@@ -897,10 +1088,18 @@ class C09(Prop):
         names, ranks, nodes, errs, refused, big = {}, [], [], 0, 0, 0
         sel = {'first': 0, 'later': 0, 'none': 0, 'raised': 0}
         wfail = 0
+        bulks = {'bulks': 0, 'tasks': 0, 'failed': 0, 'with_refused_and_two_methods': 0}
         for r in results:
             nm = r['case'].get('name') or 'order:' + ','.join(r['case']['order'])
             names[nm] = names.get(nm, 0) + 1
-            if r['case'].get('order'):
+            if r['case'].get('bulk'):
+                bulks['bulks'] += 1
+                cs_ = (r['obs'] or {}).get('calls', [])
+                bulks['tasks'] += len(cs_)
+                bulks['failed'] += sum(1 for c in cs_ if c['failed'])
+                bulks['with_refused_and_two_methods'] += (
+                    any(c['failed'] for c in cs_) and len(set(c['sel'] for c in cs_ if not c['failed'])) >= 2)
+            elif r['case'].get('order'):
                 for c in (r['obs'] or {}).get('calls', []):
                     k = ('raised' if isinstance(c['sel'], dict) else 'none' if c['sel'] is None
                          else 'first' if c['sel'] == 0 else 'later')
@@ -919,7 +1118,7 @@ class C09(Prop):
         return dict(instance_names=names, tasks=len(ranks), mean_ranks=round(sum(ranks) / max(1, len(ranks)), 2),
                     max_ranks=max(ranks or [0]), mean_nodes=round(sum(nodes) / max(1, len(nodes)), 2),
                     max_nodes=max(nodes or [0]), tasks_over_42_ranks=big, calls_raising=errs,
-                    find_launcher_selections=sel, tasks_with_unwritable_sandbox=wfail,
+                    find_launcher_selections=sel, popen_work_bulks=bulks, tasks_with_unwritable_sandbox=wfail,
                     calls_refused_by_can_launch=refused)
 
 
